@@ -12,6 +12,7 @@ history.
 """
 import logging
 
+import json
 import numpy as np
 from hypothesis import strategies as st
 
@@ -90,6 +91,8 @@ def medoid_case(draw, max_n=40, max_d=4, min_n=3, starts=("inds", "state", "all"
     edges = [0] + cuts + [n]
     case["pair_lengths"] = [edges[i + 1] - edges[i] for i in range(len(edges) - 1)]
     case["data"] = draw(rc.dataset_sites(shape))
+    if case["data"]["dtype"] == "float64" and case["data"]["step"] >= 0.3 and draw(st.integers(0, 4)) == 0:
+        case["data"]["offset"] = draw(st.sampled_from([3e7, 1e8, -1e8]))
     return case
 
 
@@ -116,6 +119,8 @@ def hybrid_case(draw, max_n=40, max_d=4, min_n=3):
     if stop in ("radius", "both"):
         case["radius_frac"] = draw(st.floats(0.05, 0.95))
     case["data"] = draw(rc.dataset_sites(shape))
+    if case["data"]["dtype"] == "float64" and case["data"]["step"] >= 0.3 and draw(st.integers(0, 4)) == 0:
+        case["data"]["offset"] = draw(st.sampled_from([3e7, 1e8, -1e8]))
     return case
 
 
@@ -134,7 +139,7 @@ class Ctx:
         dt = case["data"]["dtype"]
         self.crtol = 1e-4 if dt == "float32" else 1e-9
         self.catol = 1e-18 * float(case["data"]["step"]) ** 2
-        self.classes = ["metric=" + self.name, "dtype=" + dt, "kind=" + case["data"]["kind"],
+        self.classes = ["metric=" + self.name, "dtype=" + dt, "kind=" + case["data"]["kind"], "offset=%s" % bool(case["data"].get("offset")),
                         "layout=" + case["data"]["layout"]]
 
     def no_worse(self, after, before):
@@ -238,10 +243,11 @@ def drive_kwargs(ctx):
     return {"random_state": case["seed"]}
 
 
-def call_kmedoids(ctx, n_iters, state=None, global_seed=None):
-    """One stand-alone k-medoids call through the entry point named in the case."""
+def call_kmedoids(ctx, n_iters, state=None, global_seed=None, kw=None):
+    """One stand-alone k-medoids call through the entry point named in the case.  `kw`: warm-start keyword arguments
+    built earlier by start_kwargs - the very same objects are handed to the library again."""
     case = ctx.case
-    kw = start_kwargs(ctx, state)
+    kw = start_kwargs(ctx, state) if kw is None else dict(kw)
     with rc.pinned_global_rng(case["seed"] if global_seed is None else global_seed):
         if case["entry"] == "KMedoids.fit":
             est = KMedoids(ctx.M, n_clusters=kw.pop("n_clusters", None), n_iters=n_iters)
@@ -551,10 +557,19 @@ def run_warm_state_guarantees(case):
     total = 0
     for leg, sweeps in enumerate(case["chain"]):
         snap = (list(state[0]), np.array(state[1]).copy(), np.array(state[2]).copy())
-        r = call_kmedoids(ctx, sweeps, state=state, global_seed=case["g1"])
+        # the caller's own state arrays are handed over, and handed over AGAIN for the second run (a restart script
+        # keeps them): the supplied state must still be the supplied state afterwards
+        kw_state = start_kwargs(ctx, state)
+        kw_snap = {k_: (v.copy() if isinstance(v, np.ndarray) else json.loads(json.dumps(v))) for k_, v in kw_state.items()}
+        r = call_kmedoids(ctx, sweeps, global_seed=case["g1"], kw=kw_state)
+        for k_, v in kw_state.items():
+            same = (v.dtype == kw_snap[k_].dtype and v.tobytes() == kw_snap[k_].tobytes()) if isinstance(v, np.ndarray) \
+                else json.loads(json.dumps(v)) == kw_snap[k_]
+            require(same, "restart %d modified the caller's %s" % (leg + 1, k_),
+                    before=np.asarray(kw_snap[k_]).tolist(), after=np.asarray(v).tolist())
         # KMedoids.fit has no seed parameter: its reproducibility is only claimed for an identical global RNG
-        r2 = call_kmedoids(ctx, sweeps, state=snap,
-                           global_seed=case["g1"] if case["entry"] == "KMedoids.fit" else case["g2"])
+        r2 = call_kmedoids(ctx, sweeps, global_seed=case["g1"] if case["entry"] == "KMedoids.fit" else case["g2"],
+                           kw=kw_state)
         what = "restart %d (%d sweeps)" % (leg + 1, sweeps)
         check_count_kept(ctx, r, k, what)
         check_centers_are_frames(ctx, r, what)
